@@ -166,7 +166,17 @@ static std::string run_quaint(const std::string& ops)
                     auto a = cell(std::stoul(t[1]));
                     auto b = cell(std::stoul(t[2]));
                     if (a && b)
-                        std::swap(*a, *b);
+                    {
+                        // the way generic code and the standard algorithms exchange two objects (unqualified call
+                        // after `using std::swap`), and the qualified call
+                        if ((std::stoul(t[1]) + std::stoul(t[2])) % 2)
+                        {
+                            using std::swap;
+                            swap(*a, *b);
+                        }
+                        else
+                            std::swap(*a, *b);
+                    }
                 }
                 std::string cells;
                 for (std::size_t i = 0; i < 4 + vec.size(); i++)
